@@ -194,10 +194,10 @@ theorem gpair_node_text (hR : RelOK W R) (c : RCtx) (line : Nat) (s : Bytes) (hs
   unfold renderNode
   exact gpair_wrapFailAt _ _ (gpair_bind hR (gpair_write hR s hs) (fun _ => gpair_quiet hR (quiet_pure _)))
 
-theorem gpair_node_raw (hR : RelOK W R) (c : RCtx) (sl : List Bytes) (hs : ∀ b ∈ sl, W b) :
+theorem gpair_node_raw (hR : RelOK W R) (c : RCtx) (sl : List Bytes) (h0 : W []) (hs : ∀ b ∈ sl, W b) :
     GPair R (renderNode c (.raw sl)) (renderNode c (.raw sl)) := by
   unfold renderNode
-  exact gpair_wrapFailAt _ _ (gpair_bind hR (gpair_writeAll hR sl hs) (fun _ => gpair_quiet hR (quiet_pure _)))
+  exact gpair_wrapFailAt _ _ (gpair_bind hR (gpair_writeAll hR h0 sl hs) (fun _ => gpair_quiet hR (quiet_pure _)))
 
 theorem gpair_node_obj (hR : RelOK W R) (c : RCtx) (hx : CtxChunks W c) (line : Nat) (e : Expr) :
     GPair R (renderNode c (.obj line e)) (renderNode c (.obj line e)) := by
@@ -207,7 +207,7 @@ theorem gpair_node_obj (hR : RelOK W R) (c : RCtx) (hx : CtxChunks W c) (line : 
   split
   · exact gpair_quiet hR (quiet_fail _)
   · exact gpair_ofRes_bind hR _ _ _ (fun cs hcs =>
-      gpair_bind hR (gpair_writeAll hR cs (hx.obj v cs hcs)) (fun _ => gpair_quiet hR (quiet_pure _)))
+      gpair_bind hR (gpair_writeAll hR hx.emp cs (hx.obj v cs hcs)) (fun _ => gpair_quiet hR (quiet_pure _)))
 
 theorem gpair_node_assign (hR : RelOK W R) (c : RCtx) (line : Nat) (x : Bytes) (e : Expr) :
     GPair R (renderNode c (.assign line x e)) (renderNode c (.assign line x e)) := by
@@ -229,14 +229,14 @@ theorem getD_mem_cons {α} (l : List α) (i : Nat) (d : α) : l.getD i d ∈ d :
       · exact .inl h
       · exact .inr (.inr h)
 
-theorem gpair_node_cycle (hR : RelOK W R) (c : RCtx) (line : Nat) (g v0 : Bytes) (rest : List Bytes)
+theorem gpair_node_cycle (hR : RelOK W R) (c : RCtx) (line : Nat) (g v0 : Bytes) (rest : List Bytes) (h0 : W [])
     (hs : ∀ b ∈ v0 :: rest, W b) : GPair R (renderNode c (.cycle line g v0 rest)) (renderNode c (.cycle line g v0 rest)) := by
   unfold renderNode
   refine gpair_wrapFailAt _ _ (gpair_bind hR (gpair_quiet hR (quiet_getVar _)) (fun lv => ?_))
   split
   · exact gpair_quiet hR (quiet_fail _)
   · refine gpair_bind hR (gpair_quiet hR (quiet_setVar _ _)) (fun _ =>
-      gpair_bind hR (gpair_write hR _ ?_) (fun _ => gpair_quiet hR (quiet_pure _)))
+      gpair_bind hR (gpair_writeVerbatim hR h0 _ ?_) (fun _ => gpair_quiet hR (quiet_pure _)))
     have := getD_mem_cons (v0 :: rest) (cycleGet ‹_› g % (rest.length + 1)) v0
     rcases List.mem_cons.1 this with h | h
     · rw [h]; exact hs v0 (by simp)
@@ -258,7 +258,7 @@ theorem gpair_node_incl (hR : RelOK W R) (c : RCtx) (hc : IncQuiet c) (hx : CtxC
     refine gpair_inc_bind hR c hc _ _ _ _ _ (fun r hr => ?_)
     obtain ⟨st, out⟩ := r
     cases st with
-    | done => exact gpair_bind hR (gpair_write hR out (hx.inc _ _ _ _ hr)) (fun _ => gpair_quiet hR (quiet_pure _))
+    | done => exact gpair_bind hR (gpair_writeVerbatim hR hx.emp out (hx.inc _ _ _ _ hr)) (fun _ => gpair_quiet hR (quiet_pure _))
     | brk e => exact gpair_quiet hR (quiet_pure _)
     | cont e => exact gpair_quiet hR (quiet_pure _)
   · exact gpair_quiet hR (quiet_fail _)
@@ -336,7 +336,7 @@ theorem strip_node : ∀ n : Node, (∀ b, n ≠ .trim b) → capTrimFreeNode n 
   | .obj l e, _, _, _ => by
     rw [stripNode]; exact gpair_node_obj (hypRel_ok V) c hx l e
   | .raw sl, _, _, hl => by
-    rw [stripNode]; exact gpair_node_raw (hypRel_ok V) c sl (fun b hb => hl b (by simpa [litNode] using hb))
+    rw [stripNode]; exact gpair_node_raw (hypRel_ok V) c sl hx.emp (fun b hb => hl b (by simpa [litNode] using hb))
   | .trim b, hnt, _, _ => absurd rfl (hnt b)
   | .assign l x e, _, _, _ => by
     rw [stripNode]; exact gpair_node_assign (hypRel_ok V) c l x e
@@ -370,7 +370,7 @@ theorem strip_node : ∀ n : Node, (∀ b, n ≠ .trim b) → capTrimFreeNode n 
     exact gpair_node_loop2 (hypRel_ok V) hx.deco c l t v e m _ _ _ _ _ _
       (gpair_blockBody (hypRel_ok V) c (strip_list body hcap.1 (fun b hb => hl b (by simp [litNode, hb]))))
   | .cycle l g v0 r, _, _, hl => by
-    rw [stripNode]; exact gpair_node_cycle (hypRel_ok V) c l g v0 r (fun b hb => hl b (by simpa [litNode] using hb))
+    rw [stripNode]; exact gpair_node_cycle (hypRel_ok V) c l g v0 r hx.emp (fun b hb => hl b (by simpa [litNode] using hb))
   | .brk l, _, _, _ => by rw [stripNode]; exact gpair_node_brk (hypRel_ok V) c l
   | .cont l, _, _, _ => by rw [stripNode]; exact gpair_node_cont (hypRel_ok V) c l
   | .incl l a, _, _, _ => by rw [stripNode]; exact gpair_node_incl (hypRel_ok V) c hc hx l a
@@ -589,4 +589,4 @@ theorem eraseTrims_idem (ops : List WOp) : eraseTrims (eraseTrims ops) = eraseTr
   simp [eraseTrims, List.filter_filter]
 
 /-- every chunk allowed: the calculus then speaks about the operations only -/
-theorem ctxChunks_true (c : RCtx) : CtxChunks (fun _ => True) c := ⟨fun _ _ _ _ _ => trivial, fun _ _ _ _ _ => trivial, fun _ _ => trivial⟩
+theorem ctxChunks_true (c : RCtx) : CtxChunks (fun _ => True) c := ⟨trivial, fun _ _ _ _ _ => trivial, fun _ _ _ _ _ => trivial, fun _ _ => trivial⟩
